@@ -30,7 +30,8 @@ def scan_loop_rules(R, oid):
     inst = PARSE + ' :: field search starts at field_pos and stops at the first field of that type'
     # the type comparison `<fields>[<idx>].type_num == typ`; <idx> starts at field_pos: `idx = field_pos` before a counting loop, or
     # `for idx in range(field_pos, len(<fields>))`
-    eqs, starts_ok = [], False
+    eqs, starts_ok, exhausted_bad = [], False, False
+    nfields0 = full_text(pr, ast.parse('len(ret._encoded_fields)', mode='eval').body)
     for t in pr.cfg.nodes:
         if t.kind != 'test' or not (isinstance(t.ast, ast.Compare) and len(t.ast.ops) == 1 and isinstance(t.ast.ops[0], ast.Eq)):
             continue
@@ -45,9 +46,23 @@ def scan_loop_rules(R, oid):
                 if isinstance(v, ast.Name) and v.id == 'field_pos':
                     starts_ok = True
                 elif isinstance(v, tuple) and v and v[0] == 'iter' and isinstance(v[1], ast.Call) and ast.unparse(v[1].func) == 'range' and len(v[1].args) == 2 \
-                        and ast.unparse(v[1].args[0]) == 'field_pos' and alias_text(pr, v[1].args[1]) == 'len(ret._encoded_fields)':
+                        and ast.unparse(v[1].args[0]) == 'field_pos' and full_text(pr, v[1].args[1]) == nfields0:
+                    # a `for` over the range leaves the index on the last field when nothing matched: on the way from the exhausted loop to
+                    # the found-test the index has to be set to "not found" (`else: i = len(fields)`, or the same after the loop)
                     starts_ok = True
-    if starts_ok and len(eqs) == 1:
+                    marks = {n_.id for n_ in pr.cfg.nodes if n_.kind == 'stmt' and isinstance(n_.ast, ast.Assign) and len(n_.ast.targets) == 1
+                             and isinstance(n_.ast.targets[0], ast.Name) and full_text(pr, n_.ast.value) == nfields0}
+                    after = reach_from_succ(pr.cfg, d, False, removed_nodes=marks, follow_exc=False)
+                    for t2 in pr.cfg.nodes:
+                        if t2.kind == 'test' and isinstance(t2.ast, ast.Compare) and len(t2.ast.ops) == 1 and t2.id in after:
+                            sides2 = [t2.ast.left, t2.ast.comparators[0]]
+                            if any(full_text(pr, a_) == nfields0 and isinstance(b_, ast.Name) and full_text(pr, b_) != nfields0
+                                   for (a_, b_) in (sides2, sides2[::-1])):
+                                exhausted_bad = True
+    if exhausted_bad and len(eqs) == 1:
+        R.fail(oid, inst, PARSE, eqs[0].ast, 'the search is a `for` over the remaining fields that does not mark "not found" when it is exhausted: the index is left '
+               'on the last field, so an unknown element is decoded as that field instead of being skipped / refused', site(pr, eqs[0].ast))
+    elif starts_ok and len(eqs) == 1:
         R.ok(oid, inst, site(pr, eqs[0].ast))
     else:
         R.fail(oid, inst, PARSE, eqs[0].ast if eqs else 'def parse', 'the search for the field of a received type does not start at the current position '
